@@ -520,7 +520,7 @@ V(id='c07-convert-arg-drops-rounding', prop='C07', file='mpmath/ctx_mp_python.py
   new="        if isinstance(x, basestring): return from_str(x, prec)\n        if isinstance(x, cls.context.constant)",
   expect='fire:B-R3t:mpf_convert_arg')
 V(id='c07-benign-threshold', prop='C07', file='mpmath/libmp/libmpf.py',
-  old="    if abs(exp) > 400:", new="    if abs(exp) > 1000:",
+  old="    if abs(exp) > 400 and abs(exp + int(bitcount(abs(man))*0.30103)) > 400:", new="    if abs(exp) > 1000 and abs(exp + int(bitcount(abs(man))*0.30103)) > 400:",
   expect='silent')
 
 # ---------------------------------------------------------------- C14 -------
@@ -1155,8 +1155,8 @@ V(id='c13-cospi-arg-no-guard-bits', prop='C13', file='mpmath/libmp/libmpc.py',
   new="    b = mpf_mul(b, mpf_pi(prec+5), prec)\n    if a == fzero:\n        return mpf_cosh(b, prec, rnd), fzero",
   expect='fire:B-R9:mpc_cos_pi')
 V(id='c13-benign-unguarded-consumer', prop='C13', file='mpmath/libmp/libelefun.py',
-  old="    c = mpf_log(s, prec+10, rnd)\n    return mpf_exp(mpf_mul(t, c), prec, rnd)",
-  new="    c = mpf_log(s, prec+12, rnd)\n    return mpf_exp(mpf_mul(t, c), prec, rnd)",
+  old="    c = mpf_log(s, wp, rnd)\n    return mpf_exp(mpf_mul(t, c), prec, rnd)",
+  new="    c = mpf_log(s, wp + 2, rnd)\n    return mpf_exp(mpf_mul(t, c), prec, rnd)",
   expect='silent')
 V(id='c13-benign-more-guard-bits', prop='C13', file='mpmath/libmp/libelefun.py',
   old="        nth = mpf_rdiv_int(1, fn, prec2)", new="        nth = mpf_rdiv_int(1, fn, prec2 + 2)",
@@ -1441,3 +1441,29 @@ V(id='c16-le-touching-then-lt', prop='C16', file='mpmath/libmp/libmpi.py',
 V(id='c16-identity-shortcut', prop='C16', file='mpmath/ctx_iv.py',
   old="    def __le__(s, t): return s._compare(t, libmp.mpi_le)", new="    def __le__(s, t): return s is t or s._compare(t, libmp.mpi_le)",
   expect='fire:F-R3:ivmpf.__le__')
+
+# ------------------------------------------------ B-R10, literal sign, C-R14 -------
+V(id='c13-pow-constant-guard-bits', prop='C13', file='mpmath/libmp/libelefun.py',
+  old="    wp = prec + 10 + max(0, texp + tbc + bitcount(abs(sexp + sbc)))\n    c = mpf_log(s, wp, rnd)",
+  new="    c = mpf_log(s, prec+10, rnd)",
+  expect='fire:B-R10:mpf_pow')
+V(id='c04-mpc-pow-int-constant-guard-bits', prop='C04', file='mpmath/libmp/libmpc.py',
+  old="    return mpc_exp(mpc_mul_int(mpc_log(z, wp), n, wp), prec, rnd)",
+  new="    return mpc_exp(mpc_mul_int(mpc_log(z, prec+10), n, prec+10), prec, rnd)",
+  expect='fire:B-R10:mpc_pow_int')
+V(id='c13-half-integer-sqrt-constant-guard', prop='C13', file='mpmath/libmp/libelefun.py',
+  old="            wp = prec + 10 + tbc\n", new="            wp = prec + 10\n",
+  expect='fire:B-R10:mpf_pow')
+V(id='c13-benign-more-guard-bits-in-pow', prop='C13', file='mpmath/libmp/libelefun.py',
+  old="    wp = prec + 10 + max(0, texp + tbc + bitcount(abs(sexp + sbc)))",
+  new="    wp = prec + 20 + max(0, texp + tbc + bitcount(abs(sexp + sbc)))",
+  expect='silent')
+V(id='c07-shared-prefix-sign-ignored', prop='C07', file='mpmath/libmp/libmpi.py',
+  old="            if x.startswith('-'):\n                lower, upper = upper, lower\n", new="",
+  expect='fire:C-R7:mpi_from_str')
+V(id='c14-shared-prefix-sign-ignored', prop='C14', file='mpmath/libmp/libmpi.py',
+  old="            if x.startswith('-'):\n                lower, upper = upper, lower\n", new="",
+  expect='fire:C-R6:mpi_from_str')
+V(id='c14-new-transcendental-endpoint', prop='C14', file='mpmath/libmp/libmpi.py',
+  old="def mpi_atan2(y, x, prec):", new="def mpi_expm1_like(x, prec):\n    a, b = x\n    return mpf_exp(a, prec, round_floor), mpf_exp(b, prec, round_ceiling)\n\ndef mpi_atan2(y, x, prec):",
+  expect='fire:C-R14:mpi_expm1_like')
